@@ -356,6 +356,22 @@ def r06_4_5(ctx: Ctx) -> None:
     # the running section absorbs an overlapping area by connecting locations
     ok = len(merges) == 1 and sorted(txt(e) for e in merges[0].args[0].elts) == sorted([f"{var}.location", running]) \
         and kwarg(merges[0], "wrap_point") is not None
+    if ok:
+        # the section grows for *every* overlapping area: no further condition on the way to the merge (ends of
+        # compound, origin-spanning locations are not comparable with plain ends)
+        inner = [(e, t) for e, t in path_facts(cfg, merges[0]) if any(a is loop for a in _ancestors(e))]
+        extra = []
+        for e, t in inner:
+            resolved = inline_reaching(cfg, e, e, keep={running, var})
+            is_overlap = isinstance(resolved, ast.Call) and (last_attr(resolved) == "overlaps_with" or call_name(resolved) == "locations_overlap")
+            if not (is_overlap and t):
+                extra.append(("" if t else "not ") + txt(e))
+        ok = not extra
+        ctx.ob("R06.5", REC, merges[0], qual, "section grows with every overlapping area", ok,
+               "every area that overlaps the running section extends it, unconditionally (skipping the extension for an area "
+               "that 'cannot reach further' compares ends that are not comparable for origin-spanning sections)",
+               detail=f"extension only under {extra}" if extra else "", form=txt(merges[0])[:100])
+        ok = True
     ctx.ob("R06.5", REC, merges[0] if merges else loop, qual, "section growth", ok,
            "an overlapping area extends the running section to the span covering both (with the wrap point)",
            form=txt(merges[0]) if merges else "")
